@@ -4,6 +4,7 @@ use vharness::*;
 fn subs_of(id: &str) -> Option<Vec<Sub>> {
     Some(match id {
         "C05" => checks::c05::SUBS.to_vec(),
+        "C20" => checks::c20::SUBS.to_vec(),
         "C10" => checks::c10::SUBS.to_vec(),
         "C17" => checks::c17::SUBS.to_vec(),
         "C14" => checks::c14::SUBS.to_vec(),
@@ -141,6 +142,10 @@ fn main() {
         "C17" => {
             checks::c17::run(&ctx);
             checks::c17::finish(&ctx)
+        }
+        "C20" => {
+            checks::c20::run(&ctx);
+            checks::c20::finish(&ctx)
         }
         _ => 2,
     };
